@@ -114,8 +114,28 @@ func (p *PathFilter) LocationMatches(loc *position.Location) bool {
 	return p.line >= loc.StartPos.Line && p.line <= loc.EndPos.Line
 }
 
+// Checks whether the line of the filter is the first line
+// of the given suite or of one of its ancestors.
+func (p *PathFilter) startsSuite(suite *Suite) bool {
+	if p.line < 0 {
+		return false
+	}
+
+	for s := suite; s != nil; s = s.Parent {
+		loc := s.Location
+		if loc == nil {
+			continue
+		}
+		if p.line == loc.StartPos.Line && doublestar.MatchUnvalidated(p.pattern, loc.FilePath) {
+			return true
+		}
+	}
+
+	return false
+}
+
 func (p *PathFilter) CaseMatches(test *Case) bool {
-	return p.LocationMatches(test.Location())
+	return p.LocationMatches(test.Location()) || p.startsSuite(test.Parent)
 }
 
 func (p *PathFilter) SuiteMatches(suite *Suite) SuiteMatch {
@@ -132,7 +152,7 @@ func (p *PathFilter) SuiteMatches(suite *Suite) SuiteMatch {
 	if p.line < 0 {
 		return SUITE_MATCH_TRUE
 	}
-	if p.line == loc.StartPos.Line {
+	if p.startsSuite(suite) {
 		return SUITE_MATCH_FULL
 	}
 	if p.line >= loc.StartPos.Line && p.line <= loc.EndPos.Line {
